@@ -3,7 +3,10 @@
 import json, os, re, glob, subprocess
 rows=[]
 head=subprocess.check_output(['git','-C','/repo','log','-1','--format=%h']).decode().strip()
+import sys
+ONLY=set(sys.argv[1:])
 for d in sorted(glob.glob('/verif/seeded/C*-*')):
+    if ONLY and os.path.basename(d) not in ONLY: continue
     sid=os.path.basename(d); prop=sid.split('-')[0]
     readme=open(os.path.join(d,'README.md')).read() if os.path.exists(os.path.join(d,'README.md')) else ''
     # what it needs to manifest: paragraph(s) mentioning 'manifest' or 'need'
